@@ -1,7 +1,7 @@
 """C05 -- messages reach only the addressed applications; foreign traffic is ignored."""
 import j1939
 
-from ..ref import ids, tp21
+from ..ref import ids, tp21, tp22
 from ..runner import Job
 from ..symx import sym_eq_seq, sym_and, sym_or, sym_not, T, is_sym
 from .. import world as W
@@ -111,6 +111,80 @@ def h_single(ex, dll, cas, listeners, pdu2=False, via='notify', flags=(True, Fal
     ex.witness()
 
 
+def h_owner_leaves(ex, dll, how, aac=False):
+    """a receive session is open when the owner of its destination address disappears (the CA loses the address to a
+    contender with a lower NAME / the ECU-level listener bound to it is unsubscribed).  The remaining data packets are
+    then addressed to an address nobody on the stack owns: no CTS / acknowledgement is sent from it, nothing is delivered"""
+    w = W.World(ex, mode='interleave')
+    n = w.add_node('S', dll=dll)
+    X = 0x80
+    fd = dll != 'j1939-21'
+    spy = L(w, 'none')
+    n.ecu.subscribe(spy)
+    Ls = [spy]
+    if how == 'ca_loses':
+        ca, held = make_ca(w, n, 'normal_veto', X, ident=50, aac=aac)
+        lca = L(w, 'ca', ca=ca, held=X)
+        ca.subscribe(lca)
+        Ls.append(lca)
+    else:
+        lint = L(w, 'int', X)
+        n.ecu.subscribe(lint, X)
+        Ls.append(lint)
+    seg = 60 if fd else 7
+    size = 3 * seg
+    payload = sym_payload(ex, 'b', size)
+    pgn = 0xD000
+    pf_cm, pf_dt = (tp22.PF_CM, tp22.PF_DT) if fd else (0xEC, 0xEB)
+
+    def cm(data):
+        w.inject(n, tp21.can_id(7, pf_cm, X, SRC), data, fd=fd)
+
+    def dt(k):
+        data = tp22.dt_frame(0, k, payload) if fd else tp21.dt(k, payload)
+        w.inject(n, tp21.can_id(7, pf_dt, X, SRC), data, fd=fd)
+        w.run(until=w.now + T('1/100'))
+
+    def replies(frames):
+        out = []
+        for f in frames:
+            fld = ids.id_fields(f['id'])
+            if f['src'] == 'S' and bool(fld['pf'] == pf_cm) and bool(fld['sa'] == X):
+                c = int(f['data'][0]) % 16 if fd else int(f['data'][0])
+                if c in ((tp22.CTS, tp22.EOMA) if fd else (17, 19)):
+                    out.append(c)
+        return out
+
+    base = len(w.log)
+    cm(tp22.cm_frame(tp22.RTS, 0, size, 3, 255, 0, pgn) if fd else tp21.rts(size, 255, pgn))
+    w.run(until=w.now + T('1/100'))
+    dt(1)
+    opened = len(replies(w.log[base:])) >= 1
+    ex.claim('owner_leaves.session_was_open', opened, {'replies': replies(w.log[base:])})
+    # ---- the owner of X leaves
+    if how == 'ca_loses':
+        low = j1939.Name(arbitrary_address_capable=0, identity_number=1).value
+        w.inject(n, (6 << 26) | (0xEE << 16) | (0xFF << 8) | X, ids.name_bytes(low))
+    else:
+        n.ecu.unsubscribe(lint)
+    w.run(until=w.now + T('1/100'))
+    mark = len(w.log)
+    for l in Ls:
+        del l.got[:]
+    dt(2)
+    dt(3)
+    if fd:
+        cm(tp22.cm_frame(tp22.EOMS, 0, size, 3, 0, 0, pgn))
+    w.run(until=w.now + T('1/10'))
+    info = {'how': how, 'aac': aac, 'dll': dll}
+    ex.claim('owner_leaves.no_reply_from_the_lost_address', len(replies(w.log[mark:])) == 0, dict(info, replies=replies(w.log[mark:])))
+    w.run(until=w.now + T(4))
+    got = [(l.name(), len(m[3])) for l in Ls for m in l.got if len(m[3]) == size]
+    ex.claim('owner_leaves.nothing_delivered', len(got) == 0, dict(info, deliveries=got))
+    ex.claim('owner_leaves.job_thread_alive', n.job_alive())
+    ex.witness()
+
+
 def h_foreign_tp(ex, dll, cas, listeners, kind):
     """a transport-protocol frame (symbolic control byte and fields) to a symbolic destination.
     If nobody on this stack owns the destination: no delivery, no frame, no lasting state."""
@@ -197,6 +271,10 @@ def jobs(tier):
     for flags in [(e, r, x) for e in (True, False) for r in (True, False) for x in (True, False)]:
         out.append(Job('C05', 'c05:h_single', {'dll': 'j1939-21', 'cas': CFGS[1][0], 'listeners': CFGS[1][1], 'via': 'listener', 'flags': list(flags)}, W=40, wall=120, validate=1))
         out.append(Job('C05', 'c05:h_single', {'dll': 'j1939-21', 'cas': CFGS[1][0], 'listeners': CFGS[1][1], 'via': 'listener', 'flags': list(flags), 'pdu2': True}, W=40, wall=120, validate=1))
+    for dll in dlls:
+        out.append(Job('C05', 'c05:h_owner_leaves', {'dll': dll, 'how': 'ca_loses'}, W=40, wall=120, validate=1))
+        out.append(Job('C05', 'c05:h_owner_leaves', {'dll': dll, 'how': 'ca_loses', 'aac': True}, W=40, wall=120, validate=1))
+        out.append(Job('C05', 'c05:h_owner_leaves', {'dll': dll, 'how': 'unsubscribe'}, W=40, wall=120, validate=1))
     out.append(Job('C05', 'c05:h_bystander', {'dll': 'j1939-21', 'size': 20}, W=40, wall=120, validate=1))
     if tier != 'quick':
         more = [
@@ -224,6 +302,7 @@ def meta(tier):
                    'foreign TP.CM / TP.DT (FD: FD.TP.CM / FD.TP.DT / multi-PG) with all data bytes symbolic (every control byte, size, packet, sequence field) to every unowned destination; then 6 s of silence and a follow-up RTS',
                    'can.Message flag combinations (extended, remote, error) through the real MessageListener (concrete data bytes)',
                    'bystander observing a complete foreign 3-packet RTS/CTS session with symbolic payload',
+                   'owner of the destination address leaves in the middle of an inbound 3-packet session (CA loses the address to a contender, fixed or arbitrary-address-capable; ECU-level listener unsubscribed): later packets get no reply, nothing is delivered',
                    'source address 0x42'],
         'outside': ['source addresses other than 0x42'],
         'assumptions': ['address held by a CA is derived from its claim history, not from the CA object'],
